@@ -392,10 +392,10 @@ Proof.
   - now left.
   - right. now apply Hones.
   - now left.
-  - apply (Hfin _ _ _ _ ltac:(rewrite map2_length; lia) Hf).
-  - apply (Hfin _ _ _ _ ltac:(rewrite clear_at_length; apply repeat_length) Hf).
+  - eapply Hfin; [|exact Hf]. rewrite map2_length; lia.
+  - eapply Hfin; [|exact Hf]. rewrite clear_at_length; apply repeat_length.
   - right. now apply Hones.
-  - apply (Hfin _ _ _ _ ltac:(apply repeat_length) Hf).
+  - eapply Hfin; [|exact Hf]. apply repeat_length.
 Qed.
 
 (* ================================================================== positive finite curvatures *)
@@ -481,4 +481,372 @@ Proof.
     rewrite zero_mask_clear_at. rewrite <- (zero_at_length [j] p) at 1. now rewrite firstn_pad.
   - left. auto.
   - right. right. apply finish_cases in Hf. destruct Hf as [[_ ->]|[_ ->]]; reflexivity.
+Qed.
+
+(* ================================================================== when the code length is finite *)
+Lemma forallb_select : forall {A} (f : A -> bool) kept (l : list A),
+  forallb f (select kept l) = forallb (fun t : bool * A => negb (fst t) || f (snd t)) (combine kept l).
+Proof.
+  intros A f kept. unfold select. induction kept as [|b kept IH]; intros [|x l]; try reflexivity.
+  simpl. destruct b; simpl; now rewrite IH.
+Qed.
+Lemma select_combine : forall {A B} kept (l1 : list A) (l2 : list B),
+  select kept (combine l1 l2) = combine (select kept l1) (select kept l2).
+Proof.
+  intros A B kept. unfold select. induction kept as [|b kept IH]; intros l1 l2; [reflexivity|].
+  destruct l1 as [|x l1]; [reflexivity|]. destruct l2 as [|y l2].
+  - simpl. destruct b; simpl; [|destruct (filter fst (combine kept l1)); reflexivity].
+    destruct (map snd (filter fst (combine kept l1))); reflexivity.
+  - simpl. destruct b; simpl; now rewrite IH.
+Qed.
+Lemma forallb_nth_iff : forall {A} (f : A -> bool) l d,
+  forallb f l = true <-> forall i, i < length l -> f (nth i l d) = true.
+Proof.
+  intros A f l d. rewrite forallb_forall. split.
+  - intros H i Hi. apply H. now apply nth_In.
+  - intros H x Hx. destruct (In_nth _ _ d Hx) as [i [Hi <-]]. now apply H.
+Qed.
+
+Lemma nth_map2 : forall {A B C} (f : A -> B -> C) l1 l2 i d1 d2 d,
+  i < length l1 -> i < length l2 -> nth i (map2 f l1 l2) d = f (nth i l1 d1) (nth i l2 d2).
+Proof.
+  intros A B C f l1. induction l1 as [|x l1 IH]; intros l2 i d1 d2 d H1 H2; [simpl in H1; lia|].
+  destruct l2 as [|y l2]; [simpl in H2; lia|]. destruct i; [reflexivity|]. unfold map2 in *. simpl. apply IH; simpl in *; lia.
+Qed.
+Lemma nth_zero_mask : forall m p i, length m = length p -> i < length p ->
+  nth i (zero_mask m p) 0%Q = if nth i m false then 0%Q else nth i p 0%Q.
+Proof.
+  induction m as [|b m IH]; intros [|t p] i HL Hi; simpl in *; try lia.
+  destruct i; [reflexivity|]. unfold zero_mask in *. simpl. apply IH; lia.
+Qed.
+Lemma nth_enum_map : forall {A B} (g : nat -> A -> B) (l : list A) s i d d',
+  i < length l -> nth i (map (fun q : nat * A => g (fst q) (snd q)) (combine (seq s (length l)) l)) d' = g (s + i) (nth i l d).
+Proof.
+  intros A B g l. induction l as [|x l IH]; intros s i d d' Hi; [simpl in Hi; lia|].
+  destruct i; simpl; [now rewrite Nat.add_0_r|]. rewrite (IH (S s) i d d') by (simpl in Hi; lia). f_equal. lia.
+Qed.
+Lemma nth_repeat_lt : forall {A} (a d : A) n i, i < n -> nth i (repeat a n) d = a.
+Proof. intros A a d n. induction n as [|n IH]; intros i Hi; [lia|]. destruct i; [reflexivity|]. simpl. apply IH. lia. Qed.
+Lemma nth_zero_at1 : forall j p i, i < length p -> nth i (zero_at [j] p) 0%Q = if i =? j then 0%Q else nth i p 0%Q.
+Proof.
+  intros j p i Hi. unfold zero_at, enum.
+  rewrite (nth_enum_map (fun a t => if memn a [j] then 0%Q else t) p 0 i 0%Q 0%Q Hi). simpl. now rewrite orb_false_r.
+Qed.
+Lemma nth_clear_at1 : forall j n i, i < n -> nth i (clear_at [j] (repeat true n)) false = negb (i =? j).
+Proof.
+  intros j n i Hi. unfold clear_at, enum.
+  rewrite (nth_enum_map (fun a t => if memn a [j] then false else t) (repeat true n) 0 i true false)
+    by (now rewrite repeat_length).
+  simpl. rewrite orb_false_r. rewrite nth_repeat_lt by exact Hi. now destruct (i =? j).
+Qed.
+
+Lemma term_ok_good : forall a c, posfin a -> term_ok (a, c) = negb (Qeq_bool c 0).
+Proof. intros a c [q [-> Hq]]. unfold term_ok. simpl. apply Qlt_b_true in Hq. now rewrite Hq. Qed.
+
+Lemma negb_Qeq_bool : forall c, negb (Qeq_bool c 0) = true <-> ~ (c == 0)%Q.
+Proof.
+  intros c. rewrite negb_true_iff. split.
+  - intros H E. apply Qeq_bool_iff in E. congruence.
+  - intros H. destruct (Qeq_bool c 0) eqn:E; [|reflexivity]. apply Qeq_bool_iff in E. contradiction.
+Qed.
+
+Lemma good_nth : forall fish i, good fish -> i < length fish -> posfin (nth i fish NaN).
+Proof. intros fish i H Hi. unfold good in H. rewrite Forall_forall in H. apply H. now apply nth_In. Qed.
+
+(* the structure built by `finish`/line 219 is finite iff every KEPT current parameter is non-zero *)
+Lemma kept_terms_finite : forall kept fish cur,
+  good fish -> length fish = length cur -> length kept = length cur ->
+  (forallb term_ok (combine (select kept fish) (select kept cur)) = true <->
+   forall i, i < length cur -> nth i kept false = true -> ~ (nth i cur 0 == 0)%Q).
+Proof.
+  intros kept fish cur HG HL HK.
+  rewrite <- select_combine, forallb_select.
+  rewrite (forallb_nth_iff _ _ (false, (NaN, 0%Q))).
+  rewrite combine_length, combine_length, HL, HK, Nat.min_id, Nat.min_id.
+  split; intros H i Hi.
+  - intros Hk. specialize (H i Hi). rewrite combine_nth in H by (rewrite combine_length; lia).
+    rewrite combine_nth in H by exact HL. simpl in H. rewrite Hk in H. simpl in H.
+    rewrite term_ok_good in H by (apply good_nth; [exact HG|lia]). now apply negb_Qeq_bool.
+  - rewrite combine_nth by (rewrite combine_length; lia). rewrite combine_nth by exact HL. simpl.
+    destruct (nth i kept false) eqn:Hk; [|reflexivity]. simpl.
+    rewrite term_ok_good by (apply good_nth; [exact HG|lia]). apply negb_Qeq_bool. now apply H.
+Qed.
+
+Lemma select_ones : forall {A} (l : list A) n, n = length l -> select (repeat true n) l = l.
+Proof. intros A l n ->. apply select_all. Qed.
+
+Lemma twelve_ok : forall c, term_ok (twelve_over_sq c, c) = negb (Qeq_bool c 0).
+Proof.
+  intros c. unfold term_ok, twelve_over_sq. destruct (Qeq_bool c 0) eqn:E; [reflexivity|]. cbn [fst snd negb]. rewrite E. cbn [negb]. rewrite andb_true_r.
+  apply Qlt_b_true. assert (Hc : ~ (c == 0)%Q) by (intros H; apply Qeq_bool_iff in H; congruence).
+  pose proof (Qsq_pos c Hc) as Hs. unfold Qdiv. apply Qmult_lt_0_compat; [reflexivity|]. now apply Qinv_lt_0_compat.
+Qed.
+
+Lemma nth_map_lt : forall {A B} (f : A -> B) l i d d', i < length l -> nth i (map f l) d' = f (nth i l d).
+Proof. intros A B f l. induction l as [|x l IH]; intros i d d' H; [simpl in H; lia|]. destruct i; [reflexivity|]. simpl. apply IH. simpl in H. lia. Qed.
+
+Lemma nth_fallback : forall p fish i, length fish = length p -> i < length p ->
+  nth i (fallback_fish p fish) NaN =
+    if lt1 (nth i p 0%Q) (nth i fish NaN) then twelve_over_sq (nth i p 0%Q) else nth i fish NaN.
+Proof.
+  intros p fish i HL Hi. unfold fallback_fish.
+  assert (Hm : length (map2 lt1 p fish) = length p) by (rewrite map2_length; lia).
+  rewrite (nth_map_lt _ _ i (false, (0%Q, NaN))) by (rewrite combine_length, combine_length; lia).
+  rewrite combine_nth by (rewrite combine_length; lia). rewrite combine_nth by lia. simpl.
+  rewrite (nth_map2 lt1 p fish i 0%Q NaN false) by lia. reflexivity.
+Qed.
+
+Lemma fallback_length : forall p fish, length fish = length p -> length (fallback_fish p fish) = length p.
+Proof. intros. unfold fallback_fish. rewrite map_length, combine_length, combine_length, map2_length. lia. Qed.
+
+(* codelen_finite_iff (after convert_params, positive finite transferred curvatures):
+   the reported code length is a finite number exactly when
+     - no parameter is below one precision step, or
+     - the variant can be re-evaluated and
+         . the likelihood with all candidates dropped is finite, or
+         . the last round of the search ends on a singleton with a finite likelihood and the
+           other candidates are not exactly zero, or
+         . it ends on an infinite likelihood and no candidate is exactly zero. *)
+Theorem codelen_finite_iff : forall maxp p fish nll reeval fop r,
+  length fish = length p -> good fish ->
+  snap maxp p fish nll reeval fop = Ret r ->
+  let m := map2 lt1 p fish in
+  let C := idx_of m in
+  let p0 := zero_mask m p in
+  let st := final_state fop p fish in
+  (clen_finite (r_len r) = true <->
+   C = [] \/
+   (reeval = true /\
+    (isfin (fop p0) = true \/
+     (isfin (fop p0) = false /\ isfin (s_nll st) = true /\
+        forall i, In i C -> s_idx st <> Some [i] -> ~ (nth i p 0 == 0)%Q) \/
+     (isfin (fop p0) = false /\ isinf (s_nll st) = true /\ forall i, In i C -> ~ (nth i p 0 == 0)%Q)))).
+Proof.
+  intros maxp p fish nll reeval fop r HL HG H m C p0 st. apply snap_cases in H. cbv zeta in H.
+  rewrite (good_no_le0 _ HG) in H. destruct H as [[E _]|[_ H]]; [discriminate|].
+  fold m in H. fold C in H. fold p0 in H. fold st in H.
+  assert (Hm : length m = length p) by (unfold m; rewrite map2_length; lia).
+  assert (HmC : forall i, In i C <-> (i < length p /\ lt1 (nth i p 0%Q) (nth i fish NaN) = true)).
+  { intros i. unfold C. rewrite In_idx_of, Hm. split; intros [Hi Hn]; (split; [exact Hi|]).
+    - unfold m in Hn. rewrite (nth_map2 lt1 p fish i 0%Q NaN false) in Hn by lia. exact Hn.
+    - unfold m. rewrite (nth_map2 lt1 p fish i 0%Q NaN false) by lia. exact Hn. }
+  assert (Hnz : forall i, i < length p -> ~ In i C -> ~ (nth i p 0 == 0)%Q).
+  { intros i Hi Hn. apply (not_lt1_nonzero _ (nth i fish NaN)); [apply good_nth; [exact HG|lia]|].
+    destruct (lt1 (nth i p 0%Q) (nth i fish NaN)) eqn:E; [|reflexivity]. exfalso. apply Hn. apply HmC. auto. }
+  destruct H as [[HC ->]|[HC [[Hre ->]|[Hre [[E0 Hf]|[E0 [[E1 [HC2 [j [Hj [Hs Hf]]]]]|[[E1 [E2 ->]]|[EN Hf]]]]]]]]]; simpl r_len.
+  - (* B *) split; [intros _; now left|intros _]. simpl.
+    rewrite <- (select_ones fish (length p)) by (symmetry; exact HL).
+    rewrite <- (select_ones p (length p)) at 2 by reflexivity.
+    apply kept_terms_finite; [exact HG|exact HL|apply repeat_length|].
+    intros i Hi _. apply Hnz; [exact Hi|]. rewrite HC. intros [].
+  - (* C *) simpl. split; [discriminate|]. intros [E|[E _]]; congruence.
+  - (* D *) split; [intros _; right; split; [exact Hre|now left]|intros _].
+    apply finish_cases in Hf. destruct Hf as [[_ ->]|[_ ->]]; [reflexivity|]. simpl.
+    assert (Hp0 : length p0 = length p) by (unfold p0; now apply zero_mask_length).
+    apply kept_terms_finite; [exact HG|lia|rewrite map2_length; lia|].
+    intros i Hi Hk. rewrite Hp0 in Hi. rewrite (nth_map2 ge1 p fish i 0%Q NaN false) in Hk by lia.
+    rewrite ge1_negb_lt1 in Hk by (apply good_nth; [exact HG|lia]). apply negb_true_iff in Hk.
+    unfold p0. rewrite nth_zero_mask by assumption. unfold m. rewrite (nth_map2 lt1 p fish i 0%Q NaN false) by lia.
+    rewrite Hk. apply (not_lt1_nonzero _ (nth i fish NaN)); [apply good_nth; [exact HG|lia]|exact Hk].
+  - (* E *) apply finish_cases in Hf.
+    assert (Hcn : length C <= length p) by (unfold C; rewrite idx_of_length, <- Hm; apply count_le_length).
+    destruct Hf as [[Hk _]|[_ ->]]; [lia|]. simpl.
+    assert (Hzl : length (zero_at [j] p) = length p) by apply zero_at_length.
+    rewrite (kept_terms_finite _ fish (zero_at [j] p) HG) by (try lia; rewrite clear_at_length; rewrite repeat_length; lia).
+    rewrite Hzl. rewrite Hs. unfold single_state. simpl s_idx. simpl s_nll. split.
+    + intros H. right. split; [exact Hre|]. right. left. split; [exact E0|]. split; [rewrite Hs in E1; exact E1|].
+      intros i Hi Hne. assert (Hi' := Hi). apply HmC in Hi'. destruct Hi' as [Hi' _].
+      assert (Hij : i <> j) by (intros ->; now apply Hne).
+      specialize (H i Hi'). rewrite nth_clear_at1 in H by exact Hi'. rewrite nth_zero_at1 in H by exact Hi'.
+      apply Nat.eqb_neq in Hij. rewrite Hij in H. now apply H.
+    + intros H i Hi Hk. rewrite nth_clear_at1 in Hk by exact Hi. apply negb_true_iff in Hk.
+      rewrite nth_zero_at1 by exact Hi. rewrite Hk. apply Nat.eqb_neq in Hk.
+      destruct (in_dec Nat.eq_dec i C) as [Hin|Hin]; [|now apply Hnz].
+      destruct H as [HC0|[_ [F|[[_ [_ F]]|[_ [F _]]]]]].
+      * congruence.
+      * congruence.
+      * apply F; [exact Hin|]. intros E. inversion E. congruence.
+      * rewrite Hs in E1. simpl in E1. destruct (fop (zero_at [j] p)); discriminate.
+  - (* F1 *) simpl.
+    rewrite <- (select_ones (fallback_fish p fish) (length p)) by (symmetry; now apply fallback_length).
+    rewrite <- (select_ones p (length p)) at 3 by reflexivity.
+    rewrite <- select_combine, forallb_select.
+    rewrite (forallb_nth_iff _ _ (false, (NaN, 0%Q))).
+    rewrite combine_length, combine_length, fallback_length, repeat_length, Nat.min_id, Nat.min_id by exact HL.
+    assert (Hterm : forall i, i < length p ->
+              (negb (fst (nth i (combine (repeat true (length p)) (combine (fallback_fish p fish) p)) (false, (NaN, 0%Q))))
+               || term_ok (snd (nth i (combine (repeat true (length p)) (combine (fallback_fish p fish) p)) (false, (NaN, 0%Q)))))
+              = negb (Qeq_bool (nth i p 0%Q) 0)).
+    { intros i Hi. rewrite combine_nth by (rewrite combine_length, fallback_length, repeat_length by exact HL; lia).
+      rewrite combine_nth by (now apply fallback_length). simpl. rewrite nth_repeat_lt by exact Hi. simpl.
+      rewrite nth_fallback by assumption. destruct (lt1 (nth i p 0%Q) (nth i fish NaN)); [apply twelve_ok|].
+      apply term_ok_good. apply good_nth; [exact HG|lia]. }
+    split.
+    + intros H. right. split; [exact Hre|]. right. right. split; [exact E0|]. split; [exact E2|].
+      intros i Hi. apply HmC in Hi. destruct Hi as [Hi _]. apply negb_Qeq_bool. rewrite <- Hterm by exact Hi. now apply H.
+    + intros H i Hi. rewrite Hterm by exact Hi. apply negb_Qeq_bool.
+      destruct (in_dec Nat.eq_dec i C) as [Hin|Hin]; [|now apply Hnz].
+      destruct H as [HC0|[_ [F|[[_ [F _]]|[_ [_ F]]]]]]; try congruence. now apply F.
+  - (* F2 *) split.
+    2:{ intros [E|[_ [F|[[_ [F _]]|[_ [F _]]]]]]; [congruence|congruence|rewrite EN in F; discriminate|rewrite EN in F; discriminate]. }
+    intros Hfin. exfalso.
+    assert (Hex : exists i, In i C) by (destruct C as [|c0 C0]; [congruence|exists c0; now left]).
+    destruct Hex as [i0 Hi0].
+    apply finish_cases in Hf. destruct Hf as [[Hk _]|[_ ->]].
+    { apply HmC in Hi0. lia. }
+    simpl in Hfin.
+    (* the current vector has an exact zero at a candidate position *)
+    assert (Hz : exists i, i < length p /\ length (s_p st) = length p /\ (nth i (s_p st) 0 == 0)%Q).
+    { unfold st, final_state. fold m. fold C. fold p0.
+      destruct (search_shape fop p C (mkSS p0 (fop p0) None)) as [[_ Hs]|[_ [j [Hj Hs]]]]; rewrite Hs; simpl s_p.
+      - pose (i := i0). assert (Hi : In i C) by exact Hi0.
+        assert (Hi' := Hi). apply HmC in Hi'. destruct Hi' as [Hi' _]. exists i. split; [exact Hi'|]. split; [unfold p0; now apply zero_mask_length|].
+        unfold p0. rewrite nth_zero_mask by assumption. unfold C in Hi. apply In_idx_of in Hi. destruct Hi as [_ ->]. reflexivity.
+      - assert (Hj' := Hj). apply HmC in Hj'. destruct Hj' as [Hj' _]. exists j. split; [exact Hj'|]. split; [apply zero_at_length|].
+        rewrite nth_zero_at1 by exact Hj'. rewrite Nat.eqb_refl. reflexivity. }
+    destruct Hz as [i [Hi [Hl Hz]]].
+    rewrite (kept_terms_finite _ fish (s_p st) HG) in Hfin by (try lia; rewrite repeat_length; lia).
+    apply (Hfin i); [lia|apply nth_repeat_lt; exact Hi|exact Hz].
+Qed.
+
+(* ================================================================== the row of a recoverable chain *)
+Definition recoverable (chain : list step) : Prop :=
+  existsb is_nan_step chain = false /\ existsb is_raise_step chain = false.
+
+Lemma row_recoverable : forall maxp nparams nll theta flat chain reeval fop,
+  isfin nll = true -> nparams <> 0 -> recoverable chain ->
+  row maxp nparams nll theta flat chain reeval fop =
+    match convert nparams maxp (firstn nparams theta) flat (dicts chain) with
+    | ConvRaise => Ret (mkRow nll (CVal PInf) (zeros maxp) [])
+    | ConvIrregular => Irregular
+    | ConvOK p fish => snap maxp p fish nll reeval fop
+    end.
+Proof.
+  intros maxp nparams nll theta flat chain reeval fop Hf Hp [Hn Hr]. unfold row.
+  destruct nll; try discriminate. simpl. destruct (Nat.eqb_spec nparams 0); [contradiction|]. now rewrite Hn, Hr.
+Qed.
+
+Lemma eval_vec_length : forall th p, length (eval_vec th p) = length p.
+Proof. intros. unfold eval_vec. apply map_length. Qed.
+
+Lemma convert_lengths : forall k n th flat chain p fish,
+  convert k n th flat chain = ConvOK p fish -> length p = k /\ length fish = k.
+Proof.
+  intros k n th flat chain p fish H. apply convert_ok_iff in H. cbv zeta in H. destruct H as [_ [_ [-> ->]]].
+  rewrite eval_vec_length, compose_length, map_length, seq_length. auto.
+Qed.
+
+(* transfer_params: for a recoverable chain the reported parameters are sigma(theta_u) -- the
+   composite s_1 o ... o s_n of the recorded dictionaries applied to the unique's fitted parameters
+   -- with zeros exactly at the positions cleared in kept_mask; or all zero when the row carries
+   no code length (inf / nan rows, and k = 0). *)
+Theorem transfer_params : forall maxp nparams nll theta flat chain reeval fop r,
+  isfin nll = true -> nparams <> 0 -> recoverable chain ->
+  row maxp nparams nll theta flat chain reeval fop = Ret r ->
+  r_params r = zeros maxp \/
+  (let th := firstn nparams theta in
+   let pv := compose_chain nparams (dicts chain) in
+   gperm nparams pv = true /\ regular th pv = true /\
+   length (r_kept r) = nparams /\
+   r_params r = pad maxp (zero_mask (map negb (r_kept r)) (eval_vec th pv)) /\
+   forall i, i < nparams -> (nth i (eval_vec th pv) 0 == den_chain (dicts chain) (env_of th) i)%Q).
+Proof.
+  intros maxp nparams nll theta flat chain reeval fop r Hf Hp Hrec H.
+  rewrite row_recoverable in H by assumption.
+  destruct (convert nparams maxp (firstn nparams theta) flat (dicts chain)) as [| |p fish] eqn:EC.
+  - inversion H. now left.
+  - discriminate.
+  - destruct (convert_lengths _ _ _ _ _ _ _ EC) as [Lp Lf].
+    apply convert_ok_iff in EC. cbv zeta in EC. destruct EC as [Hg [Hr [Ep Ef]]].
+    apply snap_params in H; [|lia]. destruct H as [H|[Hk Hpar]]; [now left|right]. cbv zeta.
+    split; [exact Hg|]. split; [exact Hr|]. split; [lia|]. split; [now rewrite <- Ep|].
+    intros i Hi. unfold eval_vec.
+    rewrite (nth_map_lt _ _ i (idm i)) by (now rewrite compose_length).
+    now apply compose_matches_code.
+Qed.
+
+(* ---- the transferred curvatures of a generalised permutation *)
+Definition block_finite (n k : nat) (flat : list xq) (f : nat -> nat -> Q) : Prop :=
+  forall a b, a < k -> b < k -> fmat n flat a b = Fin (f a b).
+
+Lemma gperm_facts : forall k pv, gperm k pv = true -> length pv = k ->
+  (forall i, i < k -> pi pv i < k) /\
+  (forall i i', i < k -> i' < k -> pi pv i = pi pv i' -> i = i') /\
+  (forall i, i < k -> ~ (m_c (nth i pv (idm i)) == 0)%Q).
+Proof.
+  intros k pv H HL. unfold gperm in H. apply andb_true_iff in H. destruct H as [H H3].
+  apply andb_true_iff in H. destruct H as [H1 H2]. repeat split.
+  - intros i Hi. unfold pi. apply Nat.ltb_lt. apply (forallb_nth (fun m => m_j m <? k) pv i (idm i) H1). lia.
+  - intros i i' Hi Hi' E. apply nodupb_NoDup in H3. unfold pi in E.
+    rewrite (NoDup_nth (map m_j pv) 0) in H3. apply H3; rewrite ?map_length; try lia.
+    rewrite (nth_map_lt m_j pv i (idm i)) by lia. rewrite (nth_map_lt m_j pv i' (idm i')) by lia. exact E.
+  - intros i Hi. apply negb_Qeq_bool. apply (forallb_nth (fun m => negb (Qeq_bool (m_c m) 0)) pv i (idm i) H2). lia.
+Qed.
+
+Lemma regular_facts : forall th pv i, regular th pv = true -> i < length pv ->
+  m_inv (nth i pv (idm i)) = true -> ~ (env_of th (m_j (nth i pv (idm i))) == 0)%Q.
+Proof.
+  intros th pv i H Hi Hinv. apply (forallb_nth _ pv i (idm i)) in H; [|exact Hi]. cbv beta in H. rewrite Hinv in H. simpl in H.
+  apply negb_Qeq_bool in H. exact H.
+Qed.
+
+(* transfer_fisher: F'_ii = F_jj / (dp'_i/dtheta_j)^2, j the source parameter of p'_i; together with
+   the exact invariant p'_i^2 F'_ii = theta_j^2 F_jj and preservation of positivity *)
+Theorem transfer_fisher : forall k n th flat chain p fish f,
+  convert k n th flat chain = ConvOK p fish -> block_finite n k flat f ->
+  let pv := compose_chain k chain in
+  forall i, i < k ->
+    let j := pi pv i in
+    exists F', nth i fish NaN = Fin F' /\
+      (F' == f j j / (dd pv (env_of th) i * dd pv (env_of th) i))%Q /\
+      (nth i p 0 * nth i p 0 * F' == nth j th 0 * nth j th 0 * f j j)%Q /\
+      ((0 < F')%Q <-> (0 < f j j)%Q).
+Proof.
+  intros k n th flat chain p fish f HC HB pv i Hi j.
+  apply convert_ok_iff in HC. cbv zeta in HC. fold pv in HC. destruct HC as [Hg [Hr [-> ->]]].
+  assert (HL : length pv = k) by apply compose_length.
+  destruct (gperm_facts k pv Hg HL) as [Hrange [_ Hc]].
+  assert (X := fnew_closed_form k pv (env_of th) HL Hrange n flat f i HB Hi).
+  rewrite (nth_map_lt _ _ i 0) by (now rewrite seq_length). rewrite seq_nth by exact Hi. simpl plus.
+  destruct (fnew n k flat (env_of th) pv i) as [F'| | |]; simpl in X; try contradiction.
+  exists F'. split; [reflexivity|]. split; [exact X|].
+  assert (Hreg : m_inv (nth i pv (idm i)) = true -> ~ (env_of th (m_j (nth i pv (idm i))) == 0)%Q).
+  { apply regular_facts; [exact Hr|lia]. }
+  assert (Hinv := transfer_invariant (env_of th) (nth i pv (idm i)) (f j j) (Hc i Hi) Hreg). cbv zeta in Hinv.
+  assert (Hpos := deriv_sq_pos (env_of th) (nth i pv (idm i)) (Hc i Hi) Hreg).
+  split.
+  - unfold eval_vec. rewrite (nth_map_lt _ _ i (idm i)) by lia. rewrite X. exact Hinv.
+  - rewrite X. unfold dd. set (d2 := (deriv_mono (env_of th) (nth i pv (idm i)) * deriv_mono (env_of th) (nth i pv (idm i)))%Q) in *.
+    split; intros H.
+    + assert (E : (f j j == f j j / d2 * d2)%Q) by (field; intros E0; rewrite E0 in Hpos; apply (Qlt_irrefl _ Hpos)).
+      rewrite E. now apply Qmult_lt_0_compat.
+    + unfold Qdiv. apply Qmult_lt_0_compat; [exact H|now apply Qinv_lt_0_compat].
+Qed.
+
+Lemma lt1_compat : forall p p' F F', (0 < F)%Q <-> (0 < F')%Q -> (p * p * F == p' * p' * F')%Q ->
+  lt1 p (Fin F) = lt1 p' (Fin F').
+Proof.
+  intros p p' F F' HP HE. simpl.
+  assert (A : Qlt_b 0 F = Qlt_b 0 F').
+  { destruct (Qlt_b 0 F) eqn:E1, (Qlt_b 0 F') eqn:E2; try reflexivity.
+    - apply Qlt_b_true, HP, Qlt_b_true in E1. congruence.
+    - apply Qlt_b_true, HP, Qlt_b_true in E2. congruence. }
+  assert (B : Qlt_b (p * p * F) 12 = Qlt_b (p' * p' * F') 12).
+  { destruct (Qlt_b (p * p * F) 12) eqn:E1, (Qlt_b (p' * p' * F') 12) eqn:E2; try reflexivity.
+    - apply Qlt_b_true in E1. rewrite HE in E1. apply Qlt_b_true in E1. congruence.
+    - apply Qlt_b_true in E2. rewrite <- HE in E2. apply Qlt_b_true in E2. congruence. }
+  now rewrite A, B.
+Qed.
+
+(* snap_pattern_same: a transferred parameter is below one precision step exactly when its
+   source parameter is, in the unique function *)
+Theorem snap_pattern_same : forall k n th flat chain p fish f,
+  convert k n th flat chain = ConvOK p fish -> block_finite n k flat f ->
+  let pv := compose_chain k chain in
+  forall i, i < k ->
+    lt1 (nth i p 0%Q) (nth i fish NaN) = lt1 (nth (pi pv i) th 0%Q) (Fin (f (pi pv i) (pi pv i))).
+Proof.
+  intros k n th flat chain p fish f HC HB pv i Hi.
+  destruct (transfer_fisher k n th flat chain p fish f HC HB i Hi) as [F' [E [_ [I P]]]]. fold pv in I, P.
+  rewrite E. now apply lt1_compat.
 Qed.
